@@ -155,7 +155,9 @@ CHECKS["C04"] = {
              "`a<=b` yes => every witness of a passes M1-M4 against b, make_top/make_bottom/set_to_* agree with is_top/is_bottom; "
              "(b) per domain/config a pool of distinct values reachable by core histories of depth <=2 (incl. values over different variable "
              "sets through forget/rename), capped at 250 (600 thorough), ALL ordered pairs: inclusion soundness, join contains both witness "
-             "sets and is above both operands by the domain's own inclusion test, meet contains the common witnesses, widening contains both."),
+             "sets and is above both operands by the domain's own inclusion test, meet contains the common witnesses, widening contains both; "
+             "(c) a second pool, uncapped: every value reached by <=2 operations of a 16-operation 'octagonal shapes' alphabet (constants of both "
+             "signs, upper and lower bounds on x+y, x-y and the variables, forget), ALL ordered pairs, same clauses."),
     "assumptions": _E3_ASSUME,
     "level_text": "Complete enumeration of histories/pairs within the stated bounds on the real domains.",
     "level_note": "Pool cap and depth bound as stated (reported in evidence max.pool.*).",
